@@ -119,6 +119,21 @@ pub fn spawn_call(sim: &Sim, c: Call) -> tokio::task::JoinHandle<()> {
             let net = net.clone();
             Box::pin(async move { net.rpc(to, request).await })
         };
+        // some calls are polled once where they were created and then driven by another task (an
+        // application that collects its calls in a set, or hands them to a worker): the deadline and
+        // everything else about the call go with it
+        let mut fut = fut;
+        if c.nonce % 5 == 3 && rule.is_none() && c.abandon_after.is_none() {
+            match futures::poll!(fut.as_mut()) {
+                std::task::Poll::Ready(r) => {
+                    fut = Box::pin(async move { r });
+                }
+                std::task::Poll::Pending => {
+                    let moved = tokio::spawn(fut);
+                    fut = Box::pin(async move { moved.await.unwrap_or_else(|e| Err(anyhow::anyhow!("call task failed: {e}"))) });
+                }
+            }
+        }
         tokio::pin!(fut);
         let outcome = if let Some(rule) = rule {
             // poll the call until it parks at the gate, then drop it there
